@@ -61,7 +61,7 @@ func verifyCaveats(caveats []string, userID string) error {
 	// U: unknownCaveat
 	// v: caveat to be verified
 	var verified uint8
-	now := time.Now().Second()
+	now := time.Now().Unix()
 
 LoopCaveat:
 	for _, caveat := range caveats {
@@ -92,8 +92,8 @@ LoopCaveat:
 	return errors.New("Required caveats not present")
 }
 
-func verifyExpiry(t string, now int) bool {
-	expiry, err := strconv.Atoi(t)
+func verifyExpiry(t string, now int64) bool {
+	expiry, err := strconv.ParseInt(t, 10, 64)
 
 	if err != nil {
 		return false
